@@ -81,7 +81,41 @@ pub fn c10(tier: &str, seed: u64) -> Vec<Case> {
     let mut v = vec![];
     let reps = if thorough { 2000 } else { 60 };
     for kind in 0..40usize {
-        if kind == 25 { continue; } // OPT is C09's
+        if kind == 25 {
+            // OPT: the record as a whole (payload size in CLASS, flags and version in the TTL, the header's part) is C09's;
+            // what is judged here is the RDATA layout of RFC 6891 6.1.2 alone: zero or more {OPTION-CODE, OPTION-LENGTH,
+            // OPTION-DATA} triples, every one of them kept, in the order sent
+            for _ in 0..reps {
+                let mut o = g.opt();
+                o.version = 0;
+                let mut want = vec![];
+                for c in &o.opt_codes { want.extend_from_slice(&c.code.to_be_bytes()); want.extend_from_slice(&(c.data.len() as u16).to_be_bytes()); want.extend_from_slice(&c.data); }
+                if want.len() > 65535 { continue; }
+                let mut lib = vec![];
+                let wrote = verif::rdata_write(&RData::OPT(o.clone()), &mut lib).is_ok();
+                let mut c = Case::oracle_only().tag("type:OPT").tag("encode");
+                if !wrote || lib != want { c = c.fail("layout-written", format!("OPT: the options are not written as RFC 6891 6.1.2 triples ({} vs {} bytes)", lib.len(), want.len())); }
+                v.push(c);
+                let mut rec = vec![0u8, 0, 41];
+                rec.extend_from_slice(&o.udp_packet_size.to_be_bytes());
+                rec.extend_from_slice(&[0, 0, 0, 0]);
+                rec.extend_from_slice(&(want.len() as u16).to_be_bytes());
+                rec.extend_from_slice(&want);
+                let mut c = Case::oracle_only().tag("type:OPT").tag("decode");
+                match verif::parse_record_at(&rec, 0) {
+                    Ok((r, end)) => match &r.rdata {
+                        RData::OPT(got) => {
+                            let same = got.opt_codes.len() == o.opt_codes.len() && got.opt_codes.iter().zip(o.opt_codes.iter()).all(|(a, b)| a.code == b.code && a.data[..] == b.data[..]);
+                            if !same || got.udp_packet_size != o.udp_packet_size || end != rec.len() { c = c.fail("layout-read", format!("OPT: {} options sent, {} read (or not the same ones)", o.opt_codes.len(), got.opt_codes.len())); }
+                        }
+                        _ => { c = c.fail("layout-read", "OPT: type 41 is not read as OPT".into()); }
+                    },
+                    Err(_) => { c = c.fail("layout-read", "OPT: a well-formed option list is rejected".into()); }
+                }
+                v.push(c);
+            }
+            continue;
+        }
         for _ in 0..reps {
             g.share = 4;
             let rd = g.rdata(kind);
